@@ -138,7 +138,8 @@ def emit(progs, tier, tag, out, counter):
     _emit(hard, tier, tag + "_narrow", out, counter, True)
 
 def _emit(progs, tier, tag, out, counter, narrow):
-    per = 2 if narrow else PER
+    # a 3-token program costs about 8 s of symbolic execution, a 2-token one 3-4 s: keep the longest harness near 100 s
+    per = 2 if narrow else (PER // 2 if tier == "q" and not tag.startswith("core_len2") else PER)
     for gi in range(0, len(progs), per):
         grp = progs[gi:gi + per]
         hn = f"c06_{tier}_{tag}_{gi // per:03d}"
@@ -171,17 +172,24 @@ cnt = [0]
 nprog = {}
 core2 = [" ".join(s) for s in seqs(CORE, 2)]
 wf3 = [f"{a} {b} {op}" for a in VALS for b in VALS for op in OPS2]
-quick = core2 + wf3 + CURATED
-emit(core2, "q", "core_len2", out, cnt)
-emit(wf3, "q", "binop3", out, cnt)
+# quick tier: every operator over a 3 x 3 operand grid (register / CFA / literal on the left, bare-name register /
+# literal / negative literal on the right); the remaining 96 operand pairs of the full 5 x 5 grid are thorough-tier
+wf3_q = [f"{a} {b} {op}" for a in ["$rax", ".cfa", "8"] for b in ["rbx", "8", "-8"] for op in OPS2]
+wf3_t = [p for p in wf3 if p not in set(wf3_q)]
+quick = core2 + wf3_q + CURATED
+# most expensive groups first: cargo-kani starts harnesses in the order given
+emit(wf3_q, "q", "binop3", out, cnt)
 emit(CURATED, "q", "curated", out, cnt)
+emit(core2, "q", "core_len2", out, cnt)
 nprog["quick"] = len(quick)
 seen = set(quick)
+emit(wf3_t, "t", "binop3", out, cnt)
+seen |= set(wf3_t)
 core3 = [" ".join(s) for s in seqs(CORE, 3) if len(s) == 3 and " ".join(s) not in seen]
 full2 = [" ".join(s) for s in seqs(FULL, 2) if " ".join(s) not in seen]
 emit(core3, "t", "core_len3", out, cnt)
 emit(full2, "t", "full_len2", out, cnt)
-nprog["thorough_extra"] = len(core3) + len(full2)
+nprog["thorough_extra"] = len(wf3_t) + len(core3) + len(full2)
 out += ["/// Reachability witness: a well-formed program must be able to succeed.", "#[kani::proof]", "#[kani::unwind(40)]",
         "fn c06_w_success_reachable() {", "    let mut w = W::any();", "    let cfa: Option<u64> = kani::any();",
         "    let r = breakpad_symbols::verif::walker::eval_cfi_expr(\".cfa 8 - ^\", &mut w, cfa);", "    if r.is_some() {", "        assert!(false);", "    }", "}", ""]
